@@ -688,6 +688,10 @@ func (i *InsertStatement) SQL() string {
 		sb.WriteString(onConflictSQL(i.OnConflict))
 	}
 
+	if i.OnDuplicateKey != nil {
+		sb.WriteString(onDuplicateKeySQL(i.OnDuplicateKey))
+	}
+
 	if len(i.Returning) > 0 {
 		sb.WriteString(" RETURNING ")
 		sb.WriteString(exprListSQL(i.Returning))
@@ -1552,6 +1556,15 @@ func onConflictSQL(oc *OnConflict) string {
 		}
 	}
 	return sb.String()
+}
+
+// onDuplicateKeySQL renders the MySQL upsert clause: ON DUPLICATE KEY UPDATE col = value, ...
+func onDuplicateKeySQL(u *UpsertClause) string {
+	upds := make([]string, len(u.Updates))
+	for i, upd := range u.Updates {
+		upds[i] = exprSQL(upd.Column) + " = " + exprSQL(upd.Value)
+	}
+	return " ON DUPLICATE KEY UPDATE " + strings.Join(upds, ", ")
 }
 
 func columnDefSQL(c *ColumnDef) string {
